@@ -127,6 +127,35 @@ def trace_fields(o):
             "pre": [[g for g in pre] for pre in o["prefix"]] if not o["raised"] else []}
 
 
+def run_edit(payload):
+    """history: the list is resolved, then a caller EDITS the objects -- the plaintiff of every full case citation is
+    cleared (a public metadata field) -- and the same objects are resolved again, with every prefix.  The returned
+    record is the SECOND resolution; the harness judges it against the list of symbols with empty plaintiffs."""
+    from eyecite.models import FullCaseCitation
+    from eyecite.resolve import resolve_citations
+    alpha = payload["common"]["alphabet"]
+    res = []
+    for path in payload["items"]:
+        syms = [alpha[i - 1] for i in path]
+        objs = [make(s, i) for i, s in enumerate(syms)]
+        out = {"raised": None, "groups": None, "prefix": []}
+        try:
+            resolve_citations(objs)
+            for k in range(len(objs)):
+                resolve_citations(objs[:k])
+            for c in objs:
+                if isinstance(c, FullCaseCitation):
+                    c.metadata.plaintiff = None
+            out["groups"] = project(resolve_citations(objs), objs)
+            for k in range(len(objs)):
+                out["prefix"].append(project(resolve_citations(objs[:k]), objs))
+        except Exception as ex:  # noqa: BLE001
+            out["raised"] = f"{type(ex).__name__}: {ex}"
+        out.update(trace_fields(out))
+        res.append(out)
+    return res
+
+
 def run(payload):
     alpha = payload["common"]["alphabet"]
     res = []
